@@ -23,6 +23,8 @@ type semaStep struct {
 	Ev     string  `json:"ev"`
 	P      int     `json:"p"`
 	Ctx    string  `json:"ctx"`
+	Kind   string  `json:"kind"`
+	Want   string  `json:"want"`
 	Ret    [][]any `json:"ret"`
 	MayOK  []int   `json:"mayok"`
 	MayErr []int   `json:"mayerr"`
@@ -85,33 +87,79 @@ func (c *testCtx) finish(err error) {
 	}
 }
 
+// errCause is the caller-supplied cancellation cause of the *Cause contexts:
+// context.Cause(ctx) reports it, ctx.Err() does not.
+var errCause = errors.New("c17: the caller-supplied cancellation cause")
+
 // callCtx is the context of one Acquire call plus the way to end it.
 type callCtx struct {
 	ctx    context.Context
 	cancel func()
-	// want is the error Acquire must return once the context is done.
+	// want is ctx.Err() once the context is done: what Acquire must return.
 	want error
-	kind string
+	// cause is context.Cause(ctx) once done where it differs from want
+	// (nil otherwise): what Acquire must NOT return.
+	cause error
+	kind  string
 }
 
-// makeCtx builds the context for one call.  kind cycles through the ways a
-// context can end: cancel (context.Canceled), an expired deadline
-// (context.DeadlineExceeded) and a custom context with its own error.
-func makeCtx(kind int, preDone bool) (cc callCtx) {
-	switch kind % 3 {
-	case 0:
-		ctx, cancel := context.WithCancel(context.Background())
-		cc = callCtx{ctx: ctx, cancel: cancel, want: context.Canceled, kind: "WithCancel"}
-	case 1:
+// ctxKinds are the kinds of context of spec/sync/Semaphore.tla (AllKinds).
+var ctxKinds = []string{"cancel", "cancelcause", "deadline", "timeoutcause", "sentinel", "deadlinecause", "afterfunc", "nested"}
+
+type ctxKey struct{}
+
+// makeCtx builds a context of the i-th kind (cycling).
+func makeCtx(i int, preDone bool) callCtx { return makeCtxKind(ctxKinds[i%len(ctxKinds)], preDone) }
+
+// makeCtxKind builds a context of the named kind.  cancel ends it on demand;
+// with preDone it is already done when returned.
+func makeCtxKind(kind string, preDone bool) (cc callCtx) {
+	bg := context.Background()
+	causeParent := func() (context.Context, func()) {
+		parent, cancel := context.WithCancelCause(bg)
+		return parent, func() { cancel(errCause) }
+	}
+	switch kind {
+	case "cancelcause":
+		ctx, cancel := causeParent()
+		cc = callCtx{ctx: ctx, cancel: cancel, want: context.Canceled, cause: errCause, kind: "WithCancelCause"}
+	case "deadline":
 		if preDone {
-			ctx, cancel := context.WithDeadline(context.Background(), time.Unix(1, 0))
+			ctx, cancel := context.WithDeadline(bg, time.Unix(1, 0))
 			return callCtx{ctx: ctx, cancel: cancel, want: context.DeadlineExceeded, kind: "WithDeadline(past)"}
 		}
 		tc := newTestCtx()
 		cc = callCtx{ctx: tc, cancel: func() { tc.finish(context.DeadlineExceeded) }, want: context.DeadlineExceeded, kind: "custom(DeadlineExceeded)"}
-	default:
+	case "sentinel":
 		tc := newTestCtx()
 		cc = callCtx{ctx: tc, cancel: func() { tc.finish(errSentinel) }, want: errSentinel, kind: "custom(own error)"}
+	case "timeoutcause.expired":
+		ctx, cancel := context.WithTimeoutCause(bg, -time.Second, errCause)
+		return callCtx{ctx: ctx, cancel: cancel, want: context.DeadlineExceeded, cause: errCause, kind: "WithTimeoutCause(expired)"}
+	case "deadlinecause.expired":
+		ctx, cancel := context.WithDeadlineCause(bg, time.Unix(1, 0), errCause)
+		return callCtx{ctx: ctx, cancel: cancel, want: context.DeadlineExceeded, cause: errCause, kind: "WithDeadlineCause(past)"}
+	case "timeoutcause":
+		// ended before its (far) deadline through its cause-cancelled parent
+		parent, cancel := causeParent()
+		ctx, c2 := context.WithTimeoutCause(parent, time.Hour, errors.New("c17: timeout cause (never reached)"))
+		cc = callCtx{ctx: ctx, cancel: func() { cancel(); c2() }, want: context.Canceled, cause: errCause, kind: "WithTimeoutCause(child of a cause-cancelled parent)"}
+	case "deadlinecause":
+		parent, cancel := causeParent()
+		ctx, c2 := context.WithDeadlineCause(parent, time.Now().Add(time.Hour), errors.New("c17: deadline cause (never reached)"))
+		cc = callCtx{ctx: ctx, cancel: func() { cancel(); c2() }, want: context.Canceled, cause: errCause, kind: "WithDeadlineCause(child of a cause-cancelled parent)"}
+	case "afterfunc":
+		ctx, cancel := causeParent()
+		context.AfterFunc(ctx, func() {})
+		cc = callCtx{ctx: ctx, cancel: cancel, want: context.Canceled, cause: errCause, kind: "WithCancelCause + context.AfterFunc"}
+	case "nested":
+		parent, cancel := causeParent()
+		mid, c2 := context.WithCancel(parent)
+		cc = callCtx{ctx: context.WithValue(mid, ctxKey{}, 1), cancel: func() { cancel(); c2() }, want: context.Canceled, cause: errCause,
+			kind: "WithValue(WithCancel(child of a cause-cancelled parent))"}
+	default: // "cancel"
+		ctx, cancel := context.WithCancel(bg)
+		cc = callCtx{ctx: ctx, cancel: cancel, want: context.Canceled, kind: "WithCancel"}
 	}
 	if preDone {
 		cc.cancel()
@@ -119,12 +167,68 @@ func makeCtx(kind int, preDone bool) (cc callCtx) {
 	return cc
 }
 
+// makeTimedCtx builds a context that ends by itself after d (free-running
+// stress): plain and cause-carrying timeouts / deadlines and a child of one.
+func makeTimedCtx(i int, d time.Duration) (cc callCtx) {
+	bg := context.Background()
+	switch i % 4 {
+	case 0:
+		ctx, cancel := context.WithTimeout(bg, d)
+		return callCtx{ctx: ctx, cancel: cancel, want: context.DeadlineExceeded, kind: "WithTimeout"}
+	case 1:
+		ctx, cancel := context.WithTimeoutCause(bg, d, errCause)
+		return callCtx{ctx: ctx, cancel: cancel, want: context.DeadlineExceeded, cause: errCause, kind: "WithTimeoutCause"}
+	case 2:
+		ctx, cancel := context.WithDeadlineCause(bg, time.Now().Add(d), errCause)
+		return callCtx{ctx: ctx, cancel: cancel, want: context.DeadlineExceeded, cause: errCause, kind: "WithDeadlineCause"}
+	}
+	parent, cancel := context.WithTimeoutCause(bg, d, errCause)
+	ctx, cancel2 := context.WithCancel(parent)
+	return callCtx{ctx: ctx, cancel: func() { cancel2(); cancel() }, want: context.DeadlineExceeded, cause: errCause,
+		kind: "WithCancel(child of WithTimeoutCause)"}
+}
+
+// errName is the model's name of an error value (Semaphore.tla ErrOf / CauseOf).
+func errName(err error) string {
+	switch {
+	case err == nil:
+		return "none"
+	case err == errCause:
+		return "Cause"
+	case err == errSentinel:
+		return "Sentinel"
+	case err == context.Canceled:
+		return "Canceled"
+	case err == context.DeadlineExceeded:
+		return "DeadlineExceeded"
+	}
+	return "other:" + err.Error()
+}
+
+// ctxErrProblem checks that err, returned by Acquire, is exactly the error of
+// the (done) context: ctx.Err() itself -- in particular not context.Cause(ctx)
+// where the two differ.  It returns "" if so.
+func ctxErrProblem(err error, cc callCtx) string {
+	ce := cc.ctx.Err()
+	if ce == nil {
+		return fmt.Sprintf("returned error %q although its context (%s) is not done", err, cc.kind)
+	}
+	if cc.cause != nil && ce != cc.cause && (err == cc.cause || errors.Is(err, cc.cause)) {
+		return fmt.Sprintf("returned the cancellation cause %q (context.Cause) instead of the context's error %q (%s)", err, ce, cc.kind)
+	}
+	if err != ce || !errors.Is(err, ce) {
+		return fmt.Sprintf("returned %q, not the context's error %q (%s)", err, ce, cc.kind)
+	}
+	return ""
+}
+
 // semaCall is one Acquire call in flight or finished.
 type semaCall struct {
 	name string
 	cc   callCtx
-	err  error // written by the goroutine before it finishes
-	done bool  // the controller has seen it finish
+	err  error  // written by the goroutine before it finishes
+	done bool   // the controller has seen it finish
+	want string // the model's name of the error a cancelled Acquire returns (ErrOf(kind))
 }
 
 type semaRun struct {
@@ -163,11 +267,13 @@ func (r *semaRun) checkReturned(p int, call *semaCall) (class, what string) {
 		}
 		return "", ""
 	}
-	if ctxErr == nil {
-		return "violation", fmt.Sprintf("Acquire of p%d returned error %q although its context (%s) is not done", p, call.err, call.cc.kind)
+	_ = ctxErr
+	if prob := ctxErrProblem(call.err, call.cc); prob != "" {
+		return "violation", fmt.Sprintf("Acquire of p%d %s", p, prob)
 	}
-	if !errors.Is(call.err, call.cc.want) || !errors.Is(call.err, ctxErr) {
-		return "violation", fmt.Sprintf("Acquire of p%d returned %q, not the context's error %q (%s)", p, call.err, ctxErr, call.cc.kind)
+	if call.want != "" && errName(call.err) != call.want {
+		// the specification's own prediction of the error value (ErrOf(kind))
+		return "violation", fmt.Sprintf("Acquire of p%d returned %s, the specification says %s for a %s context", p, errName(call.err), call.want, call.cc.kind)
 	}
 	return "", ""
 }
@@ -247,7 +353,7 @@ steps:
 		case "start":
 			p := st.P
 			r.ncall[p]++
-			call := &semaCall{name: fmt.Sprintf("p%d#%d", p, r.ncall[p]), cc: makeCtx(line+i+p, st.Ctx == "done")}
+			call := &semaCall{name: fmt.Sprintf("p%d#%d", p, r.ncall[p]), cc: makeCtxKind(st.Kind, st.Ctx == "done"), want: st.Want}
 			r.cur[p] = call
 			r.c.goNamed(call.name, func() { call.err = r.sem.Acquire(call.cc.ctx) })
 			if len(may) == 0 {
